@@ -161,3 +161,46 @@ def logical_not_in_mask(ctx, P, rule="MASK-NOT", tus=None):
                                 ctx.ob(rule, "%s@%d" % (fn.name, k), False, tu.loc(x), "`%s`: logical not of a flag constant used as a mask" % estr(x)[:80])
                                 k += 1
     ctx.ob(rule, "instances", n >= 100, "c/tskit + module", "%d bitwise operations examined, %d with a logical-not mask" % (n, bad))
+
+
+def c_lints(ctx, P, scope, rule="C-LINT", tus=None):
+    """Repository-wide contradiction lints, instantiated on a property's functions."""
+    from sa.expr import const_int
+    ctx.rule(rule, "generic contradiction lints on this property's C functions: no binary operator has textually identical operands "
+                   "(`a.x > a.x`, `n - n`: a comparison or difference that was meant to involve the other object), every function "
+                   "parameter is read unless it is marked TSK_UNUSED (an unread parameter is an option or argument silently ignored), "
+                   "no flag mask is built with logical not")
+    n = 0
+    for key in (tus or LIB_TUS + ["kastore"]):
+        tu = P.tus[key]
+        for fn in tu.funcs.values():
+            if not scope(key, fn.name):
+                continue
+            n += 1
+            ident = []
+            for x in walk(fn.body):
+                if x.k == "BinaryOperator" and x.op in ("==", "!=", "<", ">", "<=", ">=", "-", "/", "&&", "||", "&", "|", "^", "%"):
+                    if x.mac:
+                        continue
+                    a, b = estr(x.kids[0]), estr(x.kids[1])
+                    if a == b and const_int(x.kids[0]) is None:
+                        ident.append(x)
+                if (x.k == "CompoundAssignOperator" and x.op in ("&=", "|=")) or (x.k == "BinaryOperator" and x.op in ("&", "|")):
+                    for side in x.kids[:2]:
+                        s = strip(side)
+                        if s is not None and s.k == "UnaryOperator" and s.op == "!":
+                            inner = strip(s.kids[0])
+                            if inner is not None and (inner.extra == "objmacro" or inner.k == "IntegerLiteral"):
+                                ident.append(x)
+            used = {y.ref for y in walk(fn.body) if y.k == "DeclRefExpr"}
+            unused = [p.name for p in fn.params if p.name and p.name not in used and "UNUSED" not in p.name]
+            ok = not ident and not unused
+            why = "clean"
+            where = tu.loc(fn.node)
+            if ident:
+                why = "`%s` has identical operands / a logical-not mask" % estr(ident[0])[:80]
+                where = tu.loc(ident[0])
+            elif unused:
+                why = "parameter(s) %s never read and not marked TSK_UNUSED" % unused
+            ctx.ob(rule, fn.name, ok, where, why)
+    return n
